@@ -178,6 +178,36 @@ Definition node_reassigned (nd nd' : node) : Prop :=
   pre nd = pre nd' /\ init nd = init nd' /\ task nd = task nd' /\ sealed nd = sealed nd'.
 Definition heap_reassigned (h h' : heap) : Prop := Forall2 node_reassigned h h'.
 
+(* ---- the order in which the Sealer visits the pre-tasks of a configuration ----------- *)
+(* The full identifier hashes the sorted raw identifiers of the pre-tasks (identifiers(), l.873-878):
+   add_pretasks(a, b) and add_pretasks(b, a) are one configuration, one job directory.  The walk
+   pushes "__pre_tasks__"/<index in the list> (l.520-522).  fixes/C17-3.diff: the Sealer visits the
+   pre-tasks in the order of their raw identifiers (stable: equal identifiers keep the list order),
+   so the index is the rank of the identifier.  idk t = the raw identifier of configuration t.   *)
+Definition sort_pre (idk : nat -> str) (l : list nat) : list nat :=
+  map snd (sort_keys (map (fun t => (idk t, t)) l)).
+
+Definition by_pre (idk : nat -> str) (nd : node) : node :=
+  {| cls := cls nd; fields := fields nd; pre := sort_pre idk (pre nd); init := init nd;
+     task := task nd; sealed := sealed nd |}.
+
+(* what the repaired Sealer sees of a configuration: parameters in declaration order, pre-tasks in
+   identifier order                                                                            *)
+Definition norm_node (decls : list (list str)) (idk : nat -> str) (nd : node) : node :=
+  by_pre idk (by_decl decls nd).
+Definition seal_edges_sorted (decls : list (list str)) (idk : nat -> str) (n : nat) (nd : node) : list edge :=
+  seal_edges n (norm_node decls idk nd).
+
+(* the same configuration with its pre-tasks added in another order *)
+Definition node_repre (nd nd' : node) : Prop :=
+  cls nd = cls nd' /\ fields nd = fields nd' /\ Permutation (pre nd) (pre nd') /\
+  init nd = init nd' /\ task nd = task nd' /\ sealed nd = sealed nd'.
+Definition heap_repre (h h' : heap) : Prop := Forall2 node_repre h h'.
+(* the pre-tasks attached to one configuration have pairwise different identifiers (the same
+   pre-task may be attached several times)                                                     *)
+Definition pre_ids_distinct (idk : nat -> str) (h : heap) : Prop :=
+  forall nd, In nd h -> forall a b, In a (pre nd) -> In b (pre nd) -> idk a = idk b -> a = b.
+
 (* ---- the generated values -------------------------------------------------------- *)
 Record entry := {
   g_node : nat;            (* configuration object *)
@@ -273,3 +303,39 @@ Section Gen.
   Definition files_plainb : bool :=
     forallb (fun c => forallb (fun af : str * str => plain (snd af)) c) gens.
 End Gen.
+
+(* ---- non-overlapping: no generated path is a folder on the way to another ---------------- *)
+(* q lies strictly below p *)
+Definition proper_prefix (p q : ppath) : Prop :=
+  p_root p = p_root q /\ exists x rest, p_parts q = p_parts p ++ x :: rest.
+
+Section Overlap.
+  Variable esc : str -> str.
+  Variable SE : nat -> node -> list edge.
+  Variable h : heap.
+  Variable gens : list (list (str * str)).
+
+  (* a configuration placed at <pos> generates <pos>/<file>; its entered sub-configurations are placed
+     at <pos>/<key>/...: no generated file name of a configuration is the segment of the first key
+     leading to one of its entered sub-configurations                                               *)
+  Definition no_file_key_clash : Prop :=
+    forall n k r b af, expanded h (cut_sealed h) n -> In (k :: r, b) (out_edges h SE n) ->
+      expanded h (cut_sealed h) b -> In af (gens_of h gens n) -> esc k <> snd af.
+  (* the task generates <job>/<file>, everything below it lives in <job>/out/...               *)
+  Definition root_files_not_out (root : nat) : Prop :=
+    forall af, In af (gens_of h gens root) -> snd af <> k_out.
+
+  Definition no_file_key_clashb : bool :=
+    forallb (fun n =>
+      if expandedb h n then
+        forallb (fun e : edge =>
+          match fst e with
+          | k :: _ => if expandedb h (snd e)
+                      then forallb (fun af : str * str => negb (str_eqb (esc k) (snd af))) (gens_of h gens n)
+                      else true
+          | [] => true
+          end) (out_edges h SE n)
+      else true) (seq 0 (length h)).
+  Definition root_files_not_outb (root : nat) : bool :=
+    forallb (fun af : str * str => negb (str_eqb (snd af) k_out)) (gens_of h gens root).
+End Overlap.
